@@ -113,7 +113,7 @@ mut("C17", "setcurrent_keeps_listening_to_previous", USM, "        if self._curr
 mut("C17", "add_does_not_select_when_none_current", USM, "        if self._current is None:\n            self.SetCurrent(unit_system)\n\n        return unit_system", "        if self._current is None and len(self._unit_systems) == 1:\n            self.SetCurrent(unit_system)\n\n        return unit_system")
 mut("C17", "remove_keeps_removed_current", USM, "            if available:\n                self.SetCurrent(available[0])\n            else:\n                self.SetCurrent(None)", "            if available:\n                self.SetCurrent(available[0])")
 mut("C17", "issubset_for_issuperset", USM, "        return set(current_categories).issuperset(required_categories_set)", "        return set(current_categories).issubset(required_categories_set) or set(current_categories).issuperset(required_categories_set)")
-mut("C17", "template_copy_not_deep", USM, "                units_mapping = deepcopy(template_units_mapping)", "                units_mapping = template_units_mapping")
+# (template_copy_not_deep is equivalent since UnitSystem keeps its own copy of the mapping)
 mut("C17", "unitsystem_keeps_mapping_by_reference", US, "        self._units_mapping = dict(units_mapping)", "        self._units_mapping = units_mapping")
 mut("C17", "getnewid_returns_used_id", USM, "        while new_id in ids:\n            count += 1\n            new_id = \"%s %d\" % (\"system\", count)\n        return new_id", "        return new_id")
 mut("C17", "convert_reads_template", USM, "        current = self.current\n        if current is None or current.GetDefaultUnit(category) is None:\n            return value, unit", "        current = self._unit_system_template or self.current\n        if current is None or current.GetDefaultUnit(category) is None:\n            return value, unit")
